@@ -40,6 +40,21 @@ def judge_extra(c):
     return None
 
 
+def judge(c):
+    """the law itself, on the implementation's own answers: keys that are == feed the same bytes to the hasher
+    (otherwise a map treats them as different entries), and != is the negation of =="""
+    if not c.line.startswith("eqhash "):
+        return None
+    f = dict(t.split("=", 1) for t in c.impl.split(" ") if "=" in t)
+    if not {"eq", "ne", "ha", "hb", "ka", "kb"} <= set(f):
+        return None
+    if f["eq"] == f["ne"]:
+        return False
+    if f["eq"] == "t" and f["ka"] == "t" and f["kb"] == "t" and f["ha"] != f["hb"]:
+        return False
+    return None
+
+
 def cases(ctx):
     out = []
     rng = ctx.rng
